@@ -50,13 +50,15 @@ Proof. exact (fun a b vs T H => conj (count_lang a b vs T H) (scan_lang a b vs T
    values into a range block, the block expands (PrintModel.expand) to exactly
    the kk slots it replaces, and kk >= 5 (the threshold).  For runs with a step
    (types i, h, c; wrap-around arithmetic) and constant runs of every scalar
-   type except floats/doubles (their == is not identity: signed-zero-run). *)
-Theorem C10_range_expand : forall o args size c kk,
-  Forall scalar args -> Forall inrv args -> exact (hd VN args) ->
+   type; floats/doubles that are no NaN, and one zero pattern of each type (zf, zd)
+   does not occur (their == identifies +0.0 and -0.0: signed-zero-run). *)
+Theorem C10_range_expand : forall zf zd o args size c kk,
+  zf = 0 \/ zf = 2 ^ 31 -> zd = 0 \/ zd = 2 ^ 63 ->
+  Forall scalar args -> Forall (inrv zf zd) args -> exact (hd VN args) ->
   Z.of_nat (length args) < 2 ^ 31 ->
   convert_to_range o args size = CYes c kk ->
   exists n, kk = Z.of_nat n /\ (5 <= n)%nat /\ expand c = Some (firstn n args).
-Proof. exact range_expand. Qed.
+Proof. exact (fun zf zd o a s c k Hf Hd => range_expand zf zd Hf Hd o a s c k). Qed.
 
 (* whole messages (rtosc_print_message / rtosc_count_printed_arg_vals_of_msg /
    rtosc_scan_message): the same for an address that starts with '/' and has
@@ -84,37 +86,38 @@ Proof. exact elements_agree. Qed.
    true/false/nil/inf, strings and quoted symbols (goodc: the FULL int32/int64
    range since the range_step_fits fix; strings/symbols/chars without '.' -
    finding D28 -; MIDI, colours; with the lossless option every finite float
-   and double except -0.0 - finding signed-zero-run -, printed as
-   "<decimal> (<hexadecimal>)"; plain symbols, blobs, arrays among other values
+   and double, printed as "<decimal> (<hexadecimal>)", in lists that do not
+   contain both +0.0 and -0.0 of one type (nozmix: finding signed-zero-run, the
+   classifier's predicate); plain symbols, blobs, arrays among other values
    and time tags are outside), the returned count
    is the text length, the checker accepts with the number of slots the scanner
    then writes, the scanner consumes the whole text, and the slots expand to
    the original values. *)
 Theorem C10_roundtrip_any_partial : forall (dec2f dec2d : list Z -> Z) o vs text w,
-  Forall (goodc o) vs -> Z.of_nat (length vs) < 2 ^ 31 ->
+  Forall (goodv o) vs -> nozmix vs -> Z.of_nat (length vs) < 2 ^ 31 ->
   print_arg_vals o vs 0 = Some (text, w) ->
   exists slots,
     w = len text /\
     count_printed_arg_vals dec2f dec2d text = Ok (true, Z.of_nat (length slots)) /\
     scan_arg_vals dec2f dec2d text (Z.of_nat (length slots)) = Ok (slots, []) /\
     expand slots = Some vs.
-Proof. exact roundtrip_any. Qed.
+Proof. exact roundtrip_any_nz. Qed.
 
 (* the same for whole messages (rtosc_print_message / count_of_msg /
    rtosc_scan_message), compression on or off *)
 Theorem C10_message_any_partial : forall (dec2f dec2d : list Z -> Z) o addr vs text w,
-  good_addr addr -> Forall (goodc o) vs -> Z.of_nat (length vs) < 2 ^ 31 ->
+  good_addr addr -> Forall (goodv o) vs -> nozmix vs -> Z.of_nat (length vs) < 2 ^ 31 ->
   print_message o addr vs 0 = Some (text, w) ->
   exists slots,
     w = len text /\
     count_printed_arg_vals_of_msg dec2f dec2d text = Ok (true, Z.of_nat (length slots)) /\
     scan_message dec2f dec2d text (Z.of_nat (length slots)) = Ok (addr, slots, []) /\
     expand slots = Some vs.
-Proof. exact message_roundtrip_any. Qed.
+Proof. exact message_roundtrip_any_nz. Qed.
 
 (* non-vacuity: a list with a constant run, an elided and an explicit run *)
 Theorem C10_roundtrip_any_nonvacuous : forall o,
-  Forall (goodc o) ([VT; VT; VT; VT; VT; VI 7] ++ map VI [1; 2; 3; 4; 5; 6] ++ map VH [10; 20; 30; 40; 50]) /\
+  Forall (goodv o) ([VT; VT; VT; VT; VT; VI 7] ++ map VI [1; 2; 3; 4; 5; 6] ++ map VH [10; 20; 30; 40; 50]) /\
   exists text w, print_arg_vals {| lossless := true; prec := 2; linelength := 20; compress := true |}
     ([VT; VT; VT; VT; VT; VI 7] ++ map VI [1; 2; 3; 4; 5; 6] ++ map VH [10; 20; 30; 40; 50]) 0 = Some (text, w).
 Proof. exact roundtrip_any_example. Qed.
@@ -130,7 +133,7 @@ Proof. exact roundtrip_any_example. Qed.
    Outside: arrays among other values of a list (the checker looks for the left
    neighbour of a later range in the text of the array), nested arrays. *)
 Theorem C10_array_roundtrip_partial : forall (dec2f dec2d : list Z -> Z) o ty elems text w,
-  Forall (goodc o) elems -> homog elems -> Z.of_nat (length elems) + 1 < 2 ^ 31 ->
+  Forall (goodv o) elems -> nozmix elems -> homog elems -> Z.of_nat (length elems) + 1 < 2 ^ 31 ->
   print_arg_vals o (VArr ty (Z.of_nat (length elems)) :: elems) 0 = Some (text, w) ->
   exists ty' slots,
     w = len text /\
@@ -138,7 +141,7 @@ Theorem C10_array_roundtrip_partial : forall (dec2f dec2d : list Z -> Z) o ty el
     scan_arg_vals dec2f dec2d text (1 + Z.of_nat (length slots))
     = Ok (VArr ty' (Z.of_nat (length slots)) :: slots, []) /\
     expand slots = Some elems /\ ty' = last_type elems.
-Proof. exact roundtrip_array. Qed.
+Proof. exact roundtrip_array_nz. Qed.
 
 (* the bracketed text forms themselves, after any value and before anything that
    may follow a value: both recognisers read "[" items "]" when the item types
@@ -156,7 +159,7 @@ Proof. exact array_reads. Qed.
 
 (* non-vacuity: [1 2 3 4 5 6 9 8 8 8 8 8 8] prints as "[1 ... 6 9 6x8]" *)
 Theorem C10_array_nonvacuous : forall o,
-  Forall (goodc o) example_elems /\ homog example_elems /\
+  Forall (goodv o) example_elems /\ homog example_elems /\
   exists w, print_arg_vals {| lossless := true; prec := 2; linelength := 20; compress := true |}
     (VArr 105 (Z.of_nat (length example_elems)) :: example_elems) 0
   = Some ([91; 49; 32; 46; 46; 46; 32; 54; 32; 57; 32; 54; 120; 56; 93], w).
@@ -200,7 +203,7 @@ Proof. exact (fun a b p => conj (tok_float a b p) (tok_double a b p)). Qed.
 (* non-vacuity: 1.5f six times (a compressed run), 0.1 as a double, the smallest
    subnormal float, an int *)
 Theorem C10_float_nonvacuous :
-  Forall (goodc ex_fl_opts) ex_fl_list /\
+  Forall (goodv ex_fl_opts) ex_fl_list /\ nozmix ex_fl_list /\
   exists text w, print_arg_vals ex_fl_opts ex_fl_list 0 = Some (text, w).
 Proof. exact float_list_example. Qed.
 
